@@ -2,11 +2,14 @@
    the raw-byte stream), whether the generator injected a fault, the oracle tables for the
    strings/values occurring in it (labelled by the generator, independently of the code
    under test) and what HookConfig.LoadAndValidate did with the JSON and with the YAML
-   rendering.  Evaluated by vm_compute in the generated cases files. *)
+   rendering.  A SESSION case is a list of such loads made by one process one after another
+   (the same package-level state), each also made alone in a fresh process, with one set of
+   oracle tables for the whole session (an oracle answers per string / per value).
+   Evaluated by vm_compute in the generated cases files. *)
 From Coq Require Import String.
-From Verif Require Import Common Json C10_Model C10_Spec.
+From Verif Require Import Common Json C10_Model C10_Spec C10_Session.
 
-Record case := mkCase {
+Record one := mkCase {
   cs_doc : option json;
   cs_fault : bool;
   cs_bad_cron : list bytes;          (* crontab strings robfig/cron rejects *)
@@ -24,25 +27,85 @@ Fixpoint lookup_dur (s : bytes) (l : list (bytes * Z)) : option Z :=
   | (k, v) :: r => if bytes_eqb s k then Some v else lookup_dur s r
   end.
 
-Definition model_load (c : case) (d : json) : result :=
+Definition model_load (c : one) (d : json) : result :=
   load (fun s => negb (mem_bytes s (cs_bad_cron c)))
        (fun j => negb (mem_json j (cs_bad_sel c)))
        (fun s => lookup_dur s (cs_dur c))
        (fun j => negb (mem_json j (cs_bad_hook c)))
        d.
 
-Definition model_obs (c : case) : option obs :=
+Definition model_obs1 (c : one) : option obs :=
   match cs_doc c with
   | None => None
   | Some d => Some (match model_load c d with Loaded cfg => OLoaded (cfg_json cfg) | Rejected => ORejected end)
   end.
 
-Definition agrees (c : case) : bool :=
-  match model_obs c with
+Definition agrees1 (c : one) : bool :=
+  match model_obs1 c with
   | None => true
   | Some o => obs_eqb o (cs_json c)
   end.
 
+
+(* ---- sessions ---- *)
+
+Record sess := mkSess {
+  ss_bad_cron : list bytes;
+  ss_bad_sel : list json;
+  ss_dur : list (bytes * Z);
+  ss_bad_hook : list json;
+  ss_steps : list sobs }.            (* the implementation's observations, C10_Spec.sobs *)
+
+Definition sess_co (s : sess) : bytes -> bool := fun x => negb (mem_bytes x (ss_bad_cron s)).
+Definition sess_lo (s : sess) : json -> bool := fun j => negb (mem_json j (ss_bad_sel s)).
+Definition sess_du (s : sess) : bytes -> option Z := fun x => lookup_dur x (ss_dur s).
+Definition sess_wo (s : sess) : json -> bool := fun j => negb (mem_json j (ss_bad_hook s)).
+
+(* the model runs the session's documents.  A raw-byte step has no parsed document to give to the
+   model; whatever it leaves in the process state cannot change the later results
+   (C10_any_earlier_history); the Spec compares it with its alone run. *)
+Definition sess_docs (s : sess) : list json :=
+  flat_map (fun st => match so_doc st with Some d => [d] | None => [] end) (ss_steps s).
+
+Definition model_sess (s : sess) : list sobs :=
+  model_session (sess_co s) (sess_lo s) (sess_du s) (sess_wo s) (sess_docs s).
+
+(* implementation steps with a document, against the model's steps, in order *)
+Fixpoint agree_steps (impl model : list sobs) : bool :=
+  match impl with
+  | [] => is_nil model
+  | st :: r =>
+      match so_doc st with
+      | None => agree_steps r model
+      | Some _ =>
+          match model with
+          | [] => false
+          | m :: model' =>
+              obs_eqb (so_json m) (so_json st) && obs_eqb (so_alone_json m) (so_alone_json st)
+              && agree_steps r model'
+          end
+      end
+  end.
+
+Inductive case := COne (c : one) | CSess (s : sess).
+
+Definition model_obs (c : case) : list (option obs) :=
+  match c with
+  | COne c1 => [model_obs1 c1]
+  | CSess s => map (fun m => Some (so_json m)) (model_sess s)
+  end.
+
+Definition agrees (c : case) : bool :=
+  match c with
+  | COne c1 => agrees1 c1
+  | CSess s => agree_steps (ss_steps s) (model_sess s)
+  end.
+
+Definition meets_spec (c : case) : bool :=
+  match c with
+  | COne c1 => P (cs_doc c1) (cs_fault c1) (cs_json c1) (cs_yaml c1)
+  | CSess s => P_session (ss_steps s)
+  end.
+
 Definition mismatches (cs : list case) : list N := indices_where (fun c => negb (agrees c)) cs.
-Definition spec_violations (cs : list case) : list N :=
-  indices_where (fun c => negb (P (cs_doc c) (cs_fault c) (cs_json c) (cs_yaml c))) cs.
+Definition spec_violations (cs : list case) : list N := indices_where (fun c => negb (meets_spec c)) cs.
